@@ -17,6 +17,8 @@ fn cfgs() -> Vec<Entry> {
     c!(v, false,"general",B1,Track,dyn Cloneable);
     c!(v, false,"general",B1D,Track,dyn Cloneable);
     c!(v, false,"general",H2D,Track,dyn Cloneable);
+    c!(v, false,"general",X24D,Track,dyn Cloneable);
+    c!(v, false,"general",D12D,Track,dyn Cloneable);
     v
 }
 fn main() { anyvec_mc::main_with(cfgs) }
